@@ -264,8 +264,8 @@ MODELS = [
     (r"^<std::slice::Iter<'_, .*> as Iterator>::next$|^<StepBy<.*> as Iterator>::next$", m_citer_next),
     (r"^<std::slice::Iter<'_, .*> as Iterator>::step_by$", m_step_by),
     (r"^<StepBy<.*> as IntoIterator>::into_iter$", lambda e, s, f, c, a, o: a[0]),
-    (r"^<std::slice::Iter<'_, .*> as Iterator>::map::<", m_iter_map),
-    (r"^<Map<std::slice::Iter<'_, .*> as Iterator>::collect::<(std::result::)?Result<", m_collect_result_vec),
+    (r"^<(std::slice::Iter<'_, .*>|TakeWhile<.*>|Skip<.*>|Take<.*>) as Iterator>::map::<", m_iter_map),
+    (r"^<Map<.*> as Iterator>::collect::<(std::result::)?Result<", m_collect_result_vec),
     (r"^Option::<.*>::and_then::<", m_option_and_then),
     (r"^(std::result::)?Result::<.*>::map::<", m_result_map),
     (r"^Option::<.*>::ok_or::<", m_option_ok_or_concrete),
